@@ -150,6 +150,9 @@ const UNIVERSE: &[&str] = &["foo", "bar", "sub/foo", "dst/foo"];
 const UNIVERSE2: &[&str] = &["subfoo", "sub/foo", "dstfoo", "dst/foo"];
 /// the same names in another letter case (patterns and prefixes are case sensitive)
 const UNIVERSE3: &[&str] = &["Foo", "foo", "sub/FOO", "SUB/foo"];
+/// file names that contain pattern syntax and are spelled exactly like one of `PATTERNS`: a name is
+/// not always matched by the pattern it spells (`[a-f]oo` denotes `aoo` .. `foo`, not itself)
+const UNIVERSE4: &[&str] = &["[a-f]oo", "foo", "f?o", "sub/[a-f]oo"];
 
 fn all_rules() -> Vec<ArtifactRule> {
     let mut v = vec![];
@@ -182,10 +185,11 @@ fn all_rules() -> Vec<ArtifactRule> {
 
 fn gen_arts(r: &mut Rng, normalized: bool) -> Vec<(String, u8)> {
     let mut v = vec![];
-    let uni = match r.below(6) {
+    let uni = match r.below(7) {
         0 | 1 | 2 => UNIVERSE,
         3 | 4 => UNIVERSE2,
-        _ => UNIVERSE3,
+        5 => UNIVERSE3,
+        _ => UNIVERSE4,
     };
     for p in uni {
         if r.chance(1, 2) {
@@ -304,7 +308,7 @@ pub fn run(cfg: &Cfg) {
     //      over every artifact universe subset with one digest choice
     let mut scope = 0u64;
     let subsets = if cfg.thorough { 16 } else { 16 };
-    for (uni, rule) in [UNIVERSE, UNIVERSE2, UNIVERSE3].iter().flat_map(|u| rules.iter().map(move |rl| (*u, rl))) {
+    for (uni, rule) in [UNIVERSE, UNIVERSE2, UNIVERSE3, UNIVERSE4].iter().flat_map(|u| rules.iter().map(move |rl| (*u, rl))) {
         for mask_m in 0..subsets {
             for mask_p in [0usize, 1, 5, 10, 15] {
                 if !cfg.thorough && (mask_m % 3 != 0) {
